@@ -459,6 +459,216 @@ def coq_term(cfg, rec):
     return 'case_trace %s %s' % (coq_cfg(cfg), groups)
 
 
+# ------------------------------------------------------------------------------------------------ extended-type phase
+
+HEADER_X = 'From CF Require Import Common.Bytes C04.Model C04.Trace C04.ExtModel.\nOpen Scope Z_scope.\n'
+
+
+def gen_ext_case(rng):
+    n = rng.randint(2, 6)
+    ids = set()
+    while len(ids) < n:
+        ids.add(rng.choice([rng.randrange(8), rng.randrange(300), rng.randrange(65536), 255, 256, 65535]))
+    ids = list(ids)
+    rng.shuffle(ids)
+    toc = [[ids[k], k, rng.randrange(3), rng.choice(TYPES), 0, int(rng.random() < 0.65)] for k in range(n)]
+    if not any(e[5] for e in toc):
+        toc[0][5] = 1
+    cfg = {'toc': toc, 'cb_param': [], 'cb_group': [], 'cb_all': [], 'dev_enoent': [],
+           'dev_init': {str(e[0]): gen_bytes(rng, e[3]) for e in toc},
+           'dev_default': {str(e[0]): gen_bytes(rng, e[3]) for e in toc},
+           'ext': {str(e[0]): rng.choice([0, 1, 1, 1, 2, 255]) for e in toc if e[5]}}
+    return {'kind': 'ext', 'cfg': cfg, 'sched': None,
+            'gen': {'other': rng.choice([0, 0.1, 0.25]), 'stray': rng.choice([0, 0, 0.1, 0.2]), 'drain': rng.random() < 0.9}}
+
+
+def execute_ext(case, rng=None):
+    """one run of the extended-type phase on the real _ExtendedTypeFetcher; steps: ['G'] queue get, ['X'] lock taken and
+    request sent, ['D'] deliver, ['O', chan, bytes] the device sends something else, ['S', chan, bytes] a duplicated
+    extended-type reply of an already answered (or never requested) parameter"""
+    import logging
+    from fakes.c04_sched import Harness, HarnessError
+    logging.disable(logging.CRITICAL)
+    cfg = case['cfg']
+    h = Harness(_cfg_for_harness(cfg))
+    steps, sched, problems = [], [], []
+    gen = case.get('gen') or {}
+    try:
+        ext_ids = h.start_ext()
+        h.drain()
+        flags = []      # parallel to dev.out: 'R' real reply, 'O', 'S'
+        answered = []
+
+        def enabled():
+            ev = []
+            if h.ext_can_get():
+                ev.append(['G'])
+            if h.ext_can_send():
+                ev.append(['X'])
+            if h.dev.out:
+                ev.append(['D'])
+            return ev
+
+        def do(ev):
+            kind = None
+            if ev[0] == 'G':
+                mod = 'FX FGet'
+                h.sched.resume(h.fetcher)
+            elif ev[0] == 'X':
+                mod = 'FX FSend'
+                h.sched.resume(h.fetcher)
+            elif ev[0] == 'D':
+                mod = 'FX FDeliver'
+                kind = flags.pop(0)
+                if kind == 'R':
+                    answered.append(int.from_bytes(h.dev.out[0][1][1:3], 'little'))
+                h.ev_deliver()
+            elif ev[0] == 'O':
+                mod = 'FX (FOther (%d, %s))' % (ev[1], coqrun.zlist(ev[2]))
+                h.dev.out.append((ev[1], bytes(ev[2])))
+            else:
+                mod = 'FStray (%d, %s)' % (ev[1], coqrun.zlist(ev[2]))
+                h.dev.out.append((ev[1], bytes(ev[2])))
+            while len(flags) < len(h.dev.out):
+                flags.append({'X': 'R', 'O': 'O', 'S': 'S'}[ev[0]])
+            sn = h.ext_snapshot()
+            steps.append({'ev': ev, 'model': mod, 'obs': h.drain(), 'snap': sn, 'delivered': kind})
+            if sn['dead']:
+                problems.append({'what': 'a thread died', 'detail': sn['dead']})
+
+        if case.get('sched') is not None:
+            for ev in case['sched']:
+                if ev[0] in ('G', 'X', 'D') and ev not in enabled():
+                    problems.append({'what': 'scheduled step not enabled', 'step': ev, 'index': len(steps)})
+                    break
+                do(ev)
+                sched.append(ev)
+        else:
+            while len(steps) < 80:
+                en = enabled()
+                r = rng.random()
+                inflight = h.fetcher._req_param
+                if r < gen.get('other', 0):
+                    e = rng.choice(cfg['toc'])
+                    if inflight >= 0 and rng.random() < 0.6:
+                        e = next(x for x in cfg['toc'] if x[0] == inflight)
+                    idb = list(struct.pack('<H', e[0]))
+                    k = rng.randrange(5)
+                    if k <= 1:      # MISC_VALUE_UPDATED; first value byte often 1 (= "persistent")
+                        v = gen_bytes(rng, e[3])
+                        if rng.random() < 0.5:
+                            v[0] = 1
+                        ev = ['O', 3, [1] + idb + v]
+                    elif k == 2:    # reply to another misc command
+                        ev = ['O', 3, [rng.choice([3, 4, 5, 6])] + idb + [rng.choice([0, 1, 2])]]
+                    elif k == 3:
+                        ev = ['O', rng.choice([1, 2]), idb + [0] + gen_bytes(rng, e[3])]
+                    else:
+                        ev = ['O', 3, [rng.choice([0, 1, 7])] + idb[:rng.randrange(3)]]
+                elif r < gen.get('other', 0) + gen.get('stray', 0):
+                    cand = [i for i in answered] + [e[0] for e in cfg['toc'] if not e[5]]
+                    if not cand:
+                        continue
+                    ev = ['S', 3, [2] + list(struct.pack('<H', rng.choice(cand))) + [rng.choice([0, 1])]]
+                elif not en:
+                    break
+                else:
+                    ev = rng.choice(en)
+                do(ev)
+                sched.append(ev)
+            if gen.get('drain', True):
+                k = 0
+                while enabled() and k < 200:
+                    ev = enabled()[0]
+                    do(ev)
+                    sched.append(ev)
+                    k += 1
+    except HarnessError as e:
+        problems.append({'what': 'harness error', 'detail': str(e)})
+    finally:
+        h.close()
+        logging.disable(logging.NOTSET)
+    return {'steps': steps, 'sched': sched, 'problems': problems, 'ext_ids': ext_ids if 'ext_ids' in dir() else []}
+
+
+def ext_trace(cfg, rec):
+    out = [1]
+    for st in rec['steps']:
+        obs = []
+        for o in st['obs']:
+            if o[0] == 'tx':
+                obs.append([1, int.from_bytes(o[2][1:3], 'little')])
+            elif o[0] == 'rx':
+                obs.append([2] + _enc_pkt(o[1], o[2]))
+            elif o[0] == 'done':
+                obs.append([3])
+            elif o[0] in ('upd', 'all'):
+                continue        # Param's own handling of notifications: not part of this model
+            else:
+                obs.append([99])
+        out.append(len(obs))
+        for o in obs:
+            out += o
+        sn = st['snap']
+        out += [len(sn['queue'])] + sn['queue'] + [sn['hand'], sn['lock'], sn['req'], sn['count']]
+        out += [sum(1 for x in rec['steps'][:rec['steps'].index(st) + 1] for o in x['obs'] if o[0] == 'done')]
+        out += sn['pers']
+        out.append(len(sn['out']))
+        for (c, d) in sn['out']:
+            out += _enc_pkt(c, d)
+    return out
+
+
+def ext_term(cfg, rec):
+    ids = [e[0] for e in _toc_read_order(cfg['toc']) if e[5]]
+    dev = '[' + '; '.join('(%d, %d)' % (int(k), v) for k, v in cfg['ext'].items()) + ']'
+    c = '(mkXC %s %s true)' % (coqrun.zlist(ids), dev)
+    return '(if wf_xcfg %s then 1 else 0) :: ftrace %s %s (fstart %s) [%s]' % (
+        c, c, coqrun.zlist([e[0] for e in cfg['toc']]), c, '; '.join(st['model'] for st in rec['steps']))
+
+
+def check_ext_run(case, rec):
+    """the property text on one extended-type phase: requests one at a time in table order, each reply given to the request it
+    answers and to no other, the phase completes exactly once, when the last request has been answered"""
+    cfg = case['cfg']
+    fails = []
+
+    def fail(cls, detail, expected=None, observed=None, step=None):
+        fails.append({'class': cls, 'detail': detail, 'expected': expected, 'observed': observed, 'step_index': step})
+    want_ids = [e[0] for e in _toc_read_order(cfg['toc']) if e[5]]
+    sent, answered, done = [], [], 0
+    for si, st in enumerate(rec['steps']):
+        for o in st['obs']:
+            if o[0] == 'tx':
+                i = int.from_bytes(o[2][1:3], 'little')
+                if len(sent) > len(answered):
+                    fail('ext_request_sent_before_reply', 'request for id %d sent while id %d is unanswered' % (i, sent[-1]), step=si)
+                sent.append(i)
+                if sent != want_ids[:len(sent)]:
+                    fail('ext_request_order_wrong', 'requests on the wire', expected=want_ids[:len(sent)], observed=list(sent), step=si)
+            elif o[0] == 'done':
+                done += 1
+                if not (st['delivered'] == 'R' and len(answered) + 1 == len(want_ids)):
+                    fail('ext_phase_completed_early', 'the done callback fired with %d of %d requests answered, while delivering a %s packet'
+                         % (len(answered) + (st['delivered'] == 'R'), len(want_ids),
+                            {'R': 'reply', 'O': 'non-reply', 'S': 'duplicated reply', None: 'no'}[st['delivered']]), step=si)
+        if st['delivered'] == 'R':
+            answered.append(sent[len(answered)] if len(answered) < len(sent) else -1)
+        exp = [int(e[0] in answered and cfg['ext'][str(e[0])] == 1) for e in cfg['toc']]
+        if st['snap']['pers'] != exp:
+            fail('ext_persistent_flag_wrong', 'persistent flags after %d answered requests (delivered: %s)' % (len(answered), st['delivered']),
+                 expected=exp, observed=st['snap']['pers'], step=si)
+    last = rec['steps'][-1]['snap'] if rec['steps'] else None
+    if last and not last['out'] and not last['queue'] and not last['hand']:
+        if len(answered) == len(want_ids) and done != 1:
+            fail('ext_phase_not_completed_once', 'done callback calls', expected=1, observed=done)
+        if len(answered) < len(want_ids) and not last['lock']:
+            fail('ext_phase_stalled', 'only %d of %d requests answered and nothing in flight' % (len(answered), len(want_ids)))
+    if done > 1:
+        fail('ext_phase_not_completed_once', 'done callback calls', expected=1, observed=done)
+    return fails
+
+
 # ------------------------------------------------------------------------------------------------ corpus
 
 def corpus_cases():
@@ -473,6 +683,7 @@ def corpus_cases():
 
 
 _runs = {}
+_xruns = {}
 
 
 def _executions(ctx):
@@ -481,10 +692,20 @@ def _executions(ctx):
     if key in _runs:
         return _runs[key]
     runs = []
+    xruns = []
     for name, case in corpus_cases():
         case = dict(case)
+        if case.get('kind') == 'ext':
+            xruns.append((case, execute_ext(case, ctx.rng), 'corpus:' + name))
+            continue
         rec = execute(case, ctx.rng)
         runs.append((case, rec, 'corpus:' + name))
+    for k in range(ctx.scale(150, 3000)):
+        case = gen_ext_case(ctx.rng)
+        rec = execute_ext(case, ctx.rng)
+        case['sched'] = rec['sched']
+        xruns.append((case, rec, 'gen'))
+    _xruns[key] = xruns
     n = ctx.scale(400, 8000)
     for k in range(n):
         case = gen_case(ctx.rng, small=(k % 4 == 0))
@@ -515,7 +736,7 @@ def _dg(values):
     return (h1, h2)
 
 
-def compare_cases(terms, expected, tag, shard):
+def compare_cases(terms, expected, tag, shard, HEADER=HEADER):
     """like coqrun.compare_blocks, with the cheap digest `dg` of C04/Trace.v"""
     got = coqrun.eval_terms(HEADER, ['dg (%s)' % t for t in terms], tag=tag, shard=shard)
     bad = [i for i, (d, e) in enumerate(zip(got, expected)) if tuple(d) != _dg(e)]
@@ -613,6 +834,26 @@ def tie(ctx):
             if k == 0:
                 d['what'] = 'generated configuration is not well-formed for the model (generator bug)'
         dis.append(d)
+    # --- extended-type phase
+    xruns = _xruns[(ctx.seed, ctx.tier)]
+    xt, xe = [], []
+    nx = 0
+    for case, rec, src in xruns:
+        for p in rec['problems']:
+            dis.append({'what': 'implementation run (extended-type phase): ' + p['what'], 'case': case, 'detail': p})
+        xt.append(ext_term(case['cfg'], rec))
+        xe.append(ext_trace(case['cfg'], rec))
+        kinds = set(st['ev'][0] for st in rec['steps'])
+        if ('O' in kinds or 'S' in kinds) and sum(1 for st in rec['steps'] if st['ev'][0] == 'X') >= 2:
+            nx += 1
+        dist['ext_steps'] = dist.get('ext_steps', 0) + len(rec['steps'])
+    for bi, mv in compare_cases(xt, xe, 'c04x', max(8, len(xt) // 16 + 1), HEADER_X):
+        d = {'what': 'extended-type fetcher: model and implementation differ', 'case': xruns[bi][0]}
+        if mv is not None:
+            k = next((i for i in range(min(len(mv), len(xe[bi]))) if mv[i] != xe[bi][i]), min(len(mv), len(xe[bi])))
+            d.update({'offset': k, 'model': mv[max(0, k - 6):k + 12], 'impl': xe[bi][max(0, k - 6):k + 12]})
+        dis.append(d)
+    nontriv += nx
     # --- set_value alone, both index widths
     t2, e2, samples = _set_value_direct(ctx)
     for bi, mv in compare_cases(t2, e2, 'c04b', max(8, len(t2) // 16 + 1)):
@@ -621,7 +862,7 @@ def tie(ctx):
     if ex:
         samples.append({'threads': ex[0]['threads'], 'schedule_head': ex[1]['sched'][:12], 'steps': len(ex[1]['steps'])})
     return {
-        'evaluations': len(terms) + len(t2),
+        'evaluations': len(terms) + len(t2) + len(xt),
         'distinct_nontrivial': nontriv,
         'rule': 'event-list cases: >= 2 user threads actually issued, >= 2 requests pending at some point (queue + in hand + '
                 'on the wire) and >= 3 packets sent; distinct by digest of the full observation/state trace. After every step '
@@ -910,6 +1151,24 @@ def oracle(ctx, deep=False):
             c = {'cfg': case['cfg'], 'threads': case['threads'], 'sched': rec['sched']}
             fails.append({'class': f['class'], 'case': c, 'expected': f.get('expected'), 'observed': f.get('observed'),
                           'detail': '%s (step %s; source %s)' % (f['detail'], f.get('step_index'), src)})
+    xruns = list(_xruns[(ctx.seed, ctx.tier)])
+    if deep:
+        for k in range(ctx.scale(300, 1500)):
+            case = gen_ext_case(ctx.rng)
+            rec = execute_ext(case, ctx.rng)
+            case['sched'] = rec['sched']
+            xruns.append((case, rec, 'deep'))
+    order = sorted(range(len(xruns)), key=lambda i: (0 if xruns[i][2].startswith('corpus') else 1, len(xruns[i][1]['steps'])))
+    for i in order:
+        case, rec, src = xruns[i]
+        n += 1
+        for f in check_ext_run(case, rec):
+            if f['class'] in seen:
+                continue
+            seen.add(f['class'])
+            fails.append({'class': f['class'], 'case': {'kind': 'ext', 'cfg': case['cfg'], 'sched': rec['sched']},
+                          'expected': f.get('expected'), 'observed': f.get('observed'),
+                          'detail': '%s (step %s; source %s)' % (f['detail'], f.get('step_index'), src)})
     fails += _direct_float_overflow()
     return {'evaluations': n + 3, 'failures': fails,
             'rule': 'per execution: set_value bytes vs independent encoder (int.to_bytes / numpy), refusal without '
@@ -923,9 +1182,14 @@ def replay(payload, ctx):
     if c.get('direct') == 'float':
         fs = _direct_float_overflow()
         return fs[0] if fs else None
-    case = {'cfg': c['cfg'], 'threads': c['threads'], 'sched': c['sched']}
-    rec = execute(case, ctx.rng)
-    fs = check_run(case, rec)
+    if c.get('kind') == 'ext':
+        case = {'kind': 'ext', 'cfg': c['cfg'], 'sched': c['sched']}
+        rec = execute_ext(case, ctx.rng)
+        fs = check_ext_run(case, rec)
+    else:
+        case = {'cfg': c['cfg'], 'threads': c['threads'], 'sched': c['sched']}
+        rec = execute(case, ctx.rng)
+        fs = check_run(case, rec)
     want = payload.get('class')
     for f in fs:
         if want is None or f['class'] == want:
